@@ -134,7 +134,7 @@ func takeCensus() census {
 			if isBlockedState(st) {
 				c.lexersBlocked++
 			}
-		case strings.Contains(blk, "parse.ParseWithInterners") || strings.Contains(blk, "parse.Parse("):
+		case strings.Contains(blk, "parse.ParseWithInterners") || strings.Contains(blk, "parse.Parse(") || strings.Contains(blk, "parse.(*Tree).Parse("):
 			c.parsers++
 			if isBlockedState(st) {
 				c.parsersBlocked++
